@@ -2,6 +2,8 @@
 
 from __future__ import annotations
 
+import functools
+
 from hypothesis import strategies as st
 
 from vlib import enumer, gen
@@ -145,6 +147,17 @@ def real_shape(w, roots):
     return [real_shape(w, w.kids[id(r)]) for r in roots]
 
 
+def _paren(left, right, node):
+    return f"{left}{node.data}{right}"
+
+
+class _Paren:
+    def render(self, node):
+        return f"({node.data})"
+
+    __call__ = render
+
+
 def check_one(rec, tree, w, start, style, title, add_self, repr_kind, join, typed):
     """One format() call against both oracles. Returns number of evaluations."""
     is_tree = start is None
@@ -163,6 +176,15 @@ def check_one(rec, tree, w, start, style, title, add_self, repr_kind, join, type
     elif repr_kind == "sometimes-empty":
         rfun = lambda n: "" if f"{n.data}"[-1:] in "02468ac" else f"{n.data}"  # noqa: E731
         rarg = rfun
+    elif repr_kind == "callable-partial":
+        rfun = lambda n: f"({n.data})"  # noqa: E731
+        rarg = functools.partial(_paren, "(", ")")  # "a callback": any callable, not only def / lambda
+    elif repr_kind == "callable-method":
+        rfun = lambda n: f"({n.data})"  # noqa: E731
+        rarg = _Paren().render
+    elif repr_kind == "callable-object":
+        rfun = lambda n: f"({n.data})"  # noqa: E731
+        rarg = _Paren()
     else:
         rfun = lambda n: f"({n.data})"  # noqa: E731
         rarg = rfun
@@ -213,6 +235,24 @@ def check_one(rec, tree, w, start, style, title, add_self, repr_kind, join, type
     if it != exp_lines:
         rec.fail("format_iter!=format", dict(desc, got=it, exp=exp_lines))
         return 2
+
+    # ---- two renderings of the same tree alive at once (side-by-side listing): each keeps its own style ----------
+    if (isinstance(style, str) and style != "list") or style is None:
+        # (the list style is left out: its default for the title line differs)
+        style2 = "ascii11" if style != "ascii11" else "round43"
+        body2 = [("", n) for n in pre_of(w, roots)] if style2 == "list" else ref_lines(w, roots, style2, top_conn)
+        exp2 = list(exp_lines[: len(exp_lines) - len(body)]) + [p + rfun(n) for p, n in body2]
+        kw1 = {k: v for k, v in kw.items() if k != "join"}
+        kw2 = dict(kw1, style=style2)
+        g1 = tree.format_iter(**kw1) if is_tree else start.format_iter(**kw1)
+        g2 = tree.format_iter(**kw2) if is_tree else start.format_iter(**kw2)
+        got1, got2 = [], []
+        for a, b in zip(g1, g2):
+            got1.append(a)
+            got2.append(b)
+        if got1 != exp_lines or got2 != exp2:
+            rec.fail("format_iter:two-renderings-in-lock-step", dict(desc, got=[got1, got2], exp=[exp_lines, exp2], style2=style2))
+            return 3
 
     # ---- oracle 2: decode the shape from the prefixes alone ----------------------------
     if style != "list" and decodable(style):
@@ -389,6 +429,10 @@ def custom_style(draw):
     wo = draw(st.integers(1, 3)) if six else wa
     a = draw(st.lists(st.text(SEG_CHARS + " ", min_size=wa, max_size=wa), min_size=2, max_size=2, unique=True))
     o = draw(st.lists(st.text(SEG_CHARS, min_size=wo, max_size=wo), min_size=4 if six else 2, max_size=4 if six else 2, unique=True))
+    if six and draw(st.sampled_from([0, 1])):
+        # a 6-segment style that re-uses ONE string object for two of its segments (as a tuple written in code does)
+        i, j = draw(st.sampled_from([(2, 0), (3, 1), (2, 1), (3, 0)]))
+        o[i] = o[j]
     return a + o
 
 
@@ -429,7 +473,7 @@ def hyp_cases(draw, tier):
         "style": style,
         "title": draw(st.sampled_from([None, False, True, "Title X"])),
         "add_self": draw(st.booleans()),
-        "repr": draw(st.sampled_from(["default", "fmt", "fmt2", "callable", "trailing-space", "sometimes-empty"])),
+        "repr": draw(st.sampled_from(["default", "fmt", "fmt2", "callable", "trailing-space", "sometimes-empty", "callable-partial", "callable-method", "callable-object"])),
         "join": draw(st.sampled_from([None, "\n", ", ", "\r\n", ";"])),
         "abandon": draw(st.sampled_from([0, 0, 0, 1, 2, 3])),
         # data objects whose format() text is not their str() text
